@@ -46,6 +46,13 @@ func (p propSpec) Deadline(tier int) time.Duration { return p.DeadlineT[tier] }
 const techSX = "symbolic execution of the real code's go/ssa (GoSX) with SMT (z3) deciding every branch and assertion over all values of the symbolic inputs within the stated bounds; counterexamples replayed natively"
 
 var properties = map[string]propSpec{
+	"C14": {
+		Level: "model_checking", Technique: techSX + "; map iteration order is a nondeterministic choice explored exhaustively (n! orders per MapKeys/range)",
+		Bounds:  [2]string{"maps of 2..3 entries (element: symbolic int8 / string / erroring slice); every pair of iteration orders at every MapKeys/range (36 per map of 3); 5 quantifier templates, Filter.Execute over maps, selector lookups", "maps of 2..4 entries (576 order pairs per map of 4)"},
+		Outside: "maps with more entries than the bound",
+		ReplayRepeat: 300,
+		Assumptions: []string{"native replay cannot select an iteration order: it repeats the call up to 300 times until two results differ"},
+	},
 	"C06": {
 		Level: "model_checking", Technique: techSX,
 		Bounds:  [2]string{"lists of 0..2 symbolic elements (int8 / string / erroring slice), maps over 2 candidate keys with symbolic presence and values; 5 list binding templates, 6 nesting/scoping templates (field, JSON pointer, nested quantifier, shadowing, same-named top-level field), 4 map templates; non-iterable collections", "lists 0..3, maps over 3 candidate keys"},
